@@ -174,8 +174,10 @@ def extra_phase(B, R, tier, vs, logdir, known_sigs):
                     data = open(mini, "rb").read()
             except subprocess.TimeoutExpired:
                 pass
-        body = "%% fill=%d\n%% sub=%s\n%% sig=fuzz-%s\n%% msg=libFuzzer artifact %s (target %s, %s corpus)\nraw #%s\n" % (
-            j["fill"], j["name"], "leak" if isleak else "crash", os.path.basename(art), j["name"], j["kind"], data.hex())
+        # (no "% fill=" header for leaks: the replay environment below must keep its own ASAN_OPTIONS)
+        body = "%s%% sub=%s\n%% sig=fuzz-%s\n%% msg=libFuzzer artifact %s (target %s, %s corpus)\nraw #%s\n" % (
+            "" if isleak else "%% fill=%d\n" % j["fill"], j["name"], "leak" if isleak else "crash", os.path.basename(art), j["name"], j["kind"],
+            data.hex())
         hh = hashlib.sha256(body.encode()).hexdigest()[:12]
         if hh in seen:
             continue
@@ -188,8 +190,10 @@ def extra_phase(B, R, tier, vs, logdir, known_sigs):
         res = R.replay(rp, 3, env_extra=ee)
         tail = open(j["prefix"] + "log", errors="replace").read()[-1200:]
         if all(rc != 0 for rc, _ in res):
+            keep = [l.strip() for l in res[0][1].split("\n")
+                    if re.search(r"ERROR: AddressSanitizer|SUMMARY:|runtime error|^REPLAY|LeakSanitizer|C15-ORACLE", l)]
             violations.append((rp, "libFuzzer %s in target %s (%d-byte input): %s" % ("leak" if isleak else "crash", j["name"], len(data),
-                                                                                 res[0][1][-500:] or tail)))
+                                                                                 " | ".join(keep)[:900] or res[0][1][-500:] or tail)))
         else:
             unconfirmed.append(dict(target=j["name"], artifact=os.path.basename(art), replay=os.path.relpath(rp, VERIF),
                                     note="artifact did not fail 3/3 when replayed through the rapidcheck harness; not reported"))
